@@ -36,6 +36,8 @@ MANIFEST = {
 
 
 def run(ctx):
+    from rules.common import require_fields
+    require_fields(ctx.program, 'fileutils.AtomicSaver', ['part_path', 'dest_path', 'part_file', 'open_flags', 'overwrite', 'overwrite_part', 'rm_part_on_exc', 'file_perms'])
     atomicsave.check_c05(ctx)
     for r, n in (('C05.R1', 8), ('C05.R1c', 3), ('C05.R2', 2), ('C05.R2s', 1), ('C05.R3', 1), ('C05.R4', 1),
                  ('C05.R5', 2), ('C05.R6', 3)):
